@@ -42,7 +42,7 @@ type memtable struct {
 func newMemtable(vecIdx VectorIndex, txtIdx TextIndex, metaIdx MetadataIndex, sizeLimit int64) *memtable {
 	verifPoint("memtable.new", vecIdx, txtIdx, metaIdx)
 	return &memtable{
-		index:     NewHybridSearchIndex(vecIdx, txtIdx, metaIdx),
+		index:     newHybridIndexLike(vecIdx, txtIdx, metaIdx),
 		sizeLimit: sizeLimit,
 		createdAt: time.Now(),
 	}
@@ -320,6 +320,27 @@ func (mq *memtableQueue) Rotate() {
 	mq.mu.Lock()
 	defer mq.mu.Unlock()
 	mq.rotateNoLock()
+}
+
+// renewMutable makes later writes go to a memtable built from the templates as they are
+// now (used after the vector template has been trained): an empty writable memtable is
+// replaced, a non-empty one is rotated.
+func (mq *memtableQueue) renewMutable() {
+	mq.mu.Lock()
+	defer mq.mu.Unlock()
+
+	if mq.mutable.count() > 0 {
+		mq.rotateNoLock()
+		return
+	}
+
+	mq.mutable = newMemtable(
+		mq.vecIdxTemplate,
+		mq.txtIdxTemplate,
+		mq.metaIdxTemplate,
+		mq.memtableSizeLimit,
+	)
+	mq.queue[len(mq.queue)-1] = mq.mutable
 }
 
 // rotateIfNotEmpty rotates the mutable memtable unless it holds no documents,
